@@ -120,9 +120,12 @@ func cmdConc(args []string) {
 	w, closeFn := newRecorder(*out, false)
 	defer closeFn()
 	// sequential baseline
+	// one line maps every call to its sequential result (TLC reads it as a function from call ids)
+	seqmap := map[string]any{}
 	for _, c := range calls {
-		w.write(map[string]any{"ev": "seq", "call": c.id, "res": safely(c.fn)})
+		seqmap[c.id] = safely(c.fn)
 	}
+	w.write(map[string]any{"ev": "seqmap", "m": seqmap})
 	s0 := sharedDigest()
 	w.write(map[string]any{"ev": "shared0", "res": s0})
 	// concurrent phase
